@@ -372,7 +372,16 @@ pub fn check(eng: &Engine, id: &str, tier: Tier) -> i32 {
     let runs = crate::env_u64("VERIF_RUNS", (def.runs)(tier));
     let cap = crate::budget_s((def.wall_cap_s)(tier));
     let out = fan(eng, &def, tier, seed, runs, crate::workers(), cap, false);
-    let agg = aggregate(&out.runs);
+    let mut agg = aggregate(&out.runs);
+    // samples are actual plans of this run; long step lists are cut to their first 30 entries
+    for sample in agg.samples.iter_mut() {
+        let total = get_steps(sample, def.steps).len();
+        if total > 30 {
+            let head: Vec<Value> = get_steps(sample, def.steps).into_iter().take(30).collect();
+            *sample = with_steps(sample, def.steps, &head);
+            sample["_steps_shown_of"] = json!(format!("30 of {total}"));
+        }
+    }
 
     let mut harness: Vec<String> = out.harness_errors.clone();
     let mut cands: Vec<(u64, u64, String, String, Value)> = vec![]; // run, trial, class, detail, plan
